@@ -404,5 +404,24 @@ func c09One(ctx *core.Ctx, out *core.Out, cfg Cfg, prog []WStep, desc rtCase, ph
 			}
 		}
 	}
+	// a second close, through each path that takes one, is a write request like any other
+	before := nc.WrittenLen()
+	again := []struct {
+		name string
+		err  error
+	}{
+		{"WriteControl(Close)", c.WriteControl(ws.CloseMessage, ws.FormatCloseMessage(1000, "again"), time.Time{})},
+		{"WriteControl(Close, deadline)", c.WriteControl(ws.CloseMessage, nil, time.Now().Add(time.Second))},
+		{"WriteMessage(Close)", c.WriteMessage(ws.CloseMessage, ws.FormatCloseMessage(1001, "again"))},
+	}
+	for _, a := range again {
+		out.Count("calls_after_close_checked", 1)
+		if !errors.Is(a.err, ws.ErrCloseSent) {
+			return fail("call-after-close:second-close", fmt.Sprintf("%s after the close had been sent returned %v instead of ErrCloseSent", a.name, a.err), nil)
+		}
+	}
+	if nc.WrittenLen() != before {
+		return fail("bytes-after-close", fmt.Sprintf("%d bytes were written by a second close", nc.WrittenLen()-before), nil)
+	}
 	return true
 }
